@@ -5,6 +5,8 @@
 
 def body(run):
     run.mc("MC_DataX", cfg="MC_DataX_thorough.cfg" if run.thorough() else "MC_DataX.cfg", coverage=not run.thorough())
+    if run.thorough():
+        run.mc("MC_DataX", cfg="MC_DataX_thorough3.cfg")
     out, meta = run.drive("c01")
     run.absorb(meta)
     run.validate(out, meta)
